@@ -100,6 +100,11 @@ func stressRun(t kit.Fataler, prop string, cfg stressCfg) stressResult {
 					return
 				}
 				q := kit.StampQueries[qs[n%len(qs)]]
+				if n%5 == 4 {
+					// a query type without mnemonic, a different one each time (per-type
+					// bookkeeping along the serve path is exercised with ever new types)
+					q = kit.Query{Name: "www.example.com.", Type: uint16(65280 + (i*37+n/5)%250), Class: 1}
+				}
 				c := kit.Client{Resolver: []string{"10.9.9.9", "192.0.2.9", "2001:db8::9"}[(i+n)%3]}
 				if cfg.ECS[i%len(cfg.ECS)] {
 					c.ECS = &kit.ECS{Family: 1, Source: 16, Addr: "10.1.0.0"}
